@@ -78,6 +78,25 @@ func ZZ_C07_switchPoint() {
 		}
 	}
 	zz.Assert("switched_exactly_once", switched == 1)
+	if zz.Bool("then_a_second_resharing") {
+		// the same running handler goes through the NEXT resharing: it must switch again
+		thirdEp := zzfake.Deal(nw.sch, 4, 3, "group-secret", "epoch3")
+		thirdGroup := zzfake.Group(nw.sch, nw.pairs[:3], 3, nw.group.Period, zzGenesis, thirdEp, "")
+		thirdGroup.GenesisSeed = nw.group.GenesisSeed
+		t2 := tRound + 4
+		thirdGroup.TransitionTime = common.TimeOfRound(nw.group.Period, zzGenesis, t2)
+		h.TransitionNewGroup(context.Background(), thirdEp.Share(nw.sch, 0), thirdGroup)
+		for r := tRound + 2; r <= t2; r++ {
+			_ = cbs.Put(context.Background(), &common.Beacon{Round: r, Signature: []byte{byte(r)}})
+			zz.Quiesce()
+			if r < t2-1 {
+				zz.Assert("second_resharing_not_before_its_transition", h.crypto.GetGroup() == newGroup)
+			} else {
+				zz.Assert("second_resharing_switches_too", h.crypto.GetGroup() == thirdGroup && h.crypto.GetGroup().Threshold == 3)
+			}
+		}
+		return
+	}
 	// after the switch: who may contribute is decided by the LIVE group and polynomial
 	clk.Set(zzGenesis + int64(tRound+1)*zzPeriodS + 1)
 	head, _ := cbs.Last(context.Background())
